@@ -121,7 +121,10 @@ func stacklessWriteZstd(ctx any) {
 	stacklessWriteZstdOnce.Do(func() {
 		stacklessWriteZstdFunc = stackless.NewFunc(nonblockingWriteZstd)
 	})
-	stacklessWriteZstdFunc(ctx)
+	if !stacklessWriteZstdFunc(ctx) {
+		// The stackless queue is full, so compress on the caller's stack.
+		nonblockingWriteZstd(ctx)
+	}
 }
 
 func nonblockingWriteZstd(ctxv any) {
